@@ -96,6 +96,9 @@ def run(pid, tier_, replay=None):
     if pid in ("C06", "C11", "C18"):
         # at the front: the first third of the scenarios runs with a queue of one place
         scenarios.extend(bp.backpressure_scenarios(rng, 24 if quick else 300, seed))
+    if pid in ("C05", "C11"):
+        # at the front too (a queue of one place): Shutdown while requests are queued, in every send_batch_size / max / timer shape
+        scenarios.extend(bp.drain_scenarios(rng, 16 if quick else 200, seed))
     prof = bp.PROFILES[pid]
     for i in range(nrand):
         scenarios.append(bp.random_scenario(rng, "seeded/%d/%d" % (seed, i), prof))
